@@ -91,8 +91,12 @@ impl TTLTicker {
         where EvictHook: Fn(&KeyId) + Send + Sync + 'static {
         let keep_running = self.keep_running.clone();
         let receiver = tick(tick_duration);
+        #[cfg(cached_verif)]
+        let (receiver, verif_controller) = crate::cache::verif::manual_tick(receiver);
 
         thread::spawn(move || {
+            #[cfg(cached_verif)]
+            crate::cache::verif::enter(verif_controller, crate::cache::verif::Role::Sweeper);
             while let Ok(_instant) = receiver.recv() {
                 let now = clock.now();
                 let shard_index = self.shard_index(&now);
@@ -105,6 +109,8 @@ impl TTLTicker {
                     }
                     has_not_expired
                 });
+                #[cfg(cached_verif)]
+                crate::cache::verif::sweep_done();
 
                 if !keep_running.load(Ordering::Acquire) {
                     info!("Shutting down TTLTicker");
@@ -304,5 +310,61 @@ mod tests {
 
         let stored_value = ticker.get(&key_id, &expire_after);
         assert_eq!(None, stored_value);
+    }
+}
+
+#[cfg(cached_verif)]
+impl TTLTicker {
+    /// (shard, key id, expiry in ns since the epoch), sorted
+    pub(crate) fn verif_entries(&self) -> Vec<(usize, u64, u128)> {
+        let mut entries = Vec::new();
+        for (index, shard) in self.shards.iter().enumerate() {
+            for (key_id, expire_after) in shard.read().iter() {
+                entries.push((index, *key_id, crate::cache::verif::system_time_to_ns(expire_after)));
+            }
+        }
+        entries.sort();
+        entries
+    }
+}
+
+/// Direct wrapper around the expiry index, for component-level correspondence.
+#[cfg(cached_verif)]
+pub struct VerifTicker {
+    ticker: Arc<TTLTicker>,
+    controller: Arc<crate::cache::verif::Controller>,
+    evicted: Arc<parking_lot::Mutex<Vec<u64>>>,
+}
+
+#[cfg(cached_verif)]
+impl VerifTicker {
+    pub fn new(shards: usize, clock: ClockType) -> Self {
+        let controller = crate::cache::verif::Controller::new();
+        controller.install();
+        let evicted = Arc::new(parking_lot::Mutex::new(Vec::new()));
+        let evicted_clone = evicted.clone();
+        let ticker = TTLTicker::new(
+            TTLConfig::new(shards, Duration::from_secs(3600), clock),
+            move |key_id: &KeyId| { evicted_clone.lock().push(*key_id); },
+        );
+        crate::cache::verif::Controller::uninstall();
+        VerifTicker { ticker, controller, evicted }
+    }
+    pub fn put(&self, key_id: u64, expire_after: SystemTime) { self.ticker.put(key_id, expire_after) }
+    pub fn update(&self, key_id: u64, old_expiry: SystemTime, new_expiry: SystemTime) { self.ticker.update(key_id, &old_expiry, new_expiry) }
+    pub fn delete(&self, key_id: u64, expire_after: SystemTime) { self.ticker.delete(&key_id, &expire_after) }
+    pub fn shard_index(&self, time: SystemTime) -> usize { self.ticker.shard_index(&time) }
+    pub fn entries(&self) -> Vec<(usize, u64, u128)> { self.ticker.verif_entries() }
+    /// one sweep at the clock's current time; returns the ids handed to the evict hook, sorted
+    pub fn sweep(&self) -> Vec<u64> {
+        self.evicted.lock().clear();
+        self.controller.tick(Duration::from_secs(10));
+        let mut evicted = self.evicted.lock().clone();
+        evicted.sort();
+        evicted
+    }
+    pub fn shutdown(&self) {
+        self.ticker.shutdown();
+        self.controller.tick_async();
     }
 }
